@@ -59,8 +59,10 @@ def gen_full(ctx):
         for j in range(m + 1, m + k + 1):
             scale *= j
         rows = [[x * scale for x in r] for r in rand_rows(rng, m, dim, 12, 3, "random")]
+        base_rows = [list(r) for r in rows]
         for _ in range(k):
             rows = [oq.elevate(r) for r in rows]
+        start_rows = [list(r) for r in rows]
         dist = rng.choice(["0", "2^-40", "2^-20"])
         if dist != "0" and m + k >= 1:
             eps = Fraction(1, 2 ** (40 if dist == "2^-40" else 20))
@@ -72,7 +74,7 @@ def gen_full(ctx):
             i = rng.randrange(len(rows))
             j = rng.randrange(m + k + 1)
             rows[i][j] += eps * p * rng.choice([1, -1]) * 3
-        out.append({"m": m, "k": k, "rows": rows, "dist": dist})
+        out.append({"m": m, "k": k, "rows": rows, "dist": dist, "base": base_rows, "start": start_rows})
     for n in (5, 6, 8):  # unsupported degree: must raise
         out.append({"m": n, "k": 0, "rows": rand_rows(rng, n, 2, 8, 2, "random"), "dist": "unsupported"})
     return out
@@ -151,6 +153,32 @@ def judge_reduce(c, op, cfg, raw):
     return None
 
 
+def judge_full(c, op, cfg, raw):
+    """full reduction strips exactly the spurious elevations; nets clearly off the elevated subspace stay untouched"""
+    if c["dist"] == "unsupported":
+        return None if raw.get("exc") == "UnsupportedDegree" else "degree %d did not raise UnsupportedDegree" % c["m"]
+    if "exc" in raw:
+        return "raised %s: %s" % (raw["exc"], raw.get("msg"))
+    out = dec_res(raw["ok"])
+    big = max([abs(x) for r in c["rows"] for x in r] + [Fraction(1)])
+    if c["dist"] == "2^-20":
+        if c["k"] >= 1 and out != c["rows"]:
+            return "a net at relative distance 2^-20 from the elevated subspace was changed by full_reduce"
+        return None
+    if c["k"] == 0:
+        return None
+    # distance 0 or 2^-40: the k spurious elevations (at least) must be stripped and the base net recovered
+    if len(out[0]) > c["m"] + 1:
+        return "full_reduce left %d nodes; the net is a %d-fold elevation of a degree-%d net" % (len(out[0]), c["k"], c["m"])
+    if len(out[0]) == c["m"] + 1:
+        tol = big * Fraction(1, 2 ** 30)
+        for i, r in enumerate(c["base"]):
+            for j, x in enumerate(r):
+                if abs(out[i][j] - x) > tol:
+                    return "reduced net differs from the original degree-%d net at row %d node %d" % (c["m"], i, j)
+    return None
+
+
 def search(ctx):
     for cfg in ("pure", "speedup"):
         jobs, meta = [], []
@@ -191,7 +219,7 @@ def run(ctx):
                [("Curve.reduce_", a, rows_out)], coq_reduce, HEADER, "chk_reduce", judge=judge_reduce, nontrivial=nontriv)
     correspond(ctx, "full_reduce", gen_full(ctx),
                [("shim.full_reduce", a, whole), ("hazmat.full_reduce", a, whole)],
-               coq_full, HEADER, "chk_full_reduce", nontrivial=nontriv)
+               coq_full, HEADER, "chk_full_reduce", judge=judge_full, nontrivial=nontriv)
     return finish(ctx, "theorems about the Gallina model of elevate_nodes / reduce_pseudo_inverse / maybe_reduce with tables, "
                   "denominators, dispatch and threshold regenerated from the source; reduce-inverts-elevate is proved over R "
                   "(real-number axioms of the standard library); Fortran closed forms tied by correspondence; "
